@@ -735,11 +735,13 @@ Qed.
 (** * order of the lines *)
 (** PARTIAL. Two runs whose tuple lists are permutations of each other (e.g.
     result lines reordered in a way that leaves every line's Keys unchanged)
-    have, cell for cell, the same multiset of values.  The full statement -
-    permuting result lines of the TEXT that do not change configuration scope
-    changes no cell up to the renaming of Keys that first-seen interning and
-    first-seen .config sub-field creation induce - needs a Key-renaming
-    invariant of the projection stream that C08 does not provide yet. *)
+    have, cell for cell, the same multiset of values.  The statement from the
+    result RECORDS - permuted records change no cell up to the renaming of Keys
+    that first-seen interning and first-seen .config sub-field creation induce -
+    is Proofs/PipelinePerm.v (line_perm_records), on the Key-renaming invariant
+    of the projection stream in Proofs/ProjectionRename.v.  What is left is the
+    step from the TEXT to the records (permuting result lines within one
+    configuration scope permutes the records). *)
 Theorem line_perm_partial fl files fl' files' o o' assign assign' t r c :
   run_facts fl files o assign -> run_facts fl' files' o' assign' ->
   Permutation (o_tuples o) (o_tuples o') ->
